@@ -586,13 +586,19 @@ pub fn gen_c16(rng: &mut Rng) -> Value {
         wcfg: WriteCfg { by_hash_pct: 30, rich_opts: false, declare_size_pct: 30, algos: true, ends: false },
     };
     let mut sc = gen_history(rng, &m);
-    // damage one algorithm's copy: only reads addressed by that algorithm may fail
-    if rng.chance(1, 3) {
+    // damage one algorithm's copy: only reads addressed by that algorithm may fail; when the damage comes early,
+    // later re-writes of the same bytes must repair the copy (a successful write is readable afterwards)
+    if rng.chance(1, 2) {
         let nv = sc["vals"].as_array().map(|a| a.len()).unwrap_or(1);
         let steps = sc["steps"].as_array_mut().unwrap();
-        let at = steps.len().saturating_sub(3);
+        let at = if rng.chance(1, 2) { steps.len().saturating_sub(3) } else { rng.idx(steps.len().saturating_sub(3).max(1)) };
         let a = *rng.pick(&ALGOS);
-        steps.insert(at, json!({"k":"env","act":"flip","content":{"val":rng.idx(nv),"algo":a},"byte":0,"bit":rng.below(8)}));
+        let dmg = match rng.below(4) {
+            0 => json!({"k":"env","act":"truncate","content":{"val":rng.idx(nv),"algo":a},"len":0}),
+            1 => json!({"k":"env","act":"truncate_frac","content":{"val":rng.idx(nv),"algo":a},"num":rng.below(1000)}),
+            _ => json!({"k":"env","act":"flip","content":{"val":rng.idx(nv),"algo":a},"byte":0,"bit":rng.below(8)}),
+        };
+        steps.insert(at, dmg);
     }
     sc
 }
